@@ -71,7 +71,11 @@ class Ctx:
         self.trusted.add(what)
 
     def guarded(self, label, fn):
-        """run a contract section; a selector or subset failure makes that section UNDECIDED, not a violation"""
+        """run a contract section; a selector or subset failure makes that section UNDECIDED, not a violation.
+        With `self.only` set (a dependency run: only the sections that carry the callee contracts another property uses) other sections are skipped."""
+        only = getattr(self, 'only', None)
+        if only is not None and not any(label == l or label.startswith(l) for l in only):
+            return None
         try:
             fn()
             return True
